@@ -448,7 +448,18 @@ class Interp:
                 'lt': r == '<', 'le': r in '<=', 'gt': r == '>', 'ge': r in '>=', 'eq': r == '=', 'ne': r != '='}[op]
 
     # ---- execution -------------------------------------------------------------------------------------------------
-    def run_body(self, body, args, depth=0):
+    def run_body(self, body, args, depth=0, mono=None):
+        # `mono`: how the calls of a GENERIC body resolve under the concrete type arguments of this activation (extractor `mono`)
+        if not hasattr(self, 'mono_by_def'):
+            self.mono_by_def = {}
+        if mono is None:
+            mono = self.mono_by_def.get(body.defp)
+        mono_map = {}
+        for ent_ in mono or ():
+            if ent_[0] == 'c':
+                self.mono_by_def[ent_[1]] = ent_[2]
+            else:
+                mono_map[ent_[0]] = ent_
         if depth > 12:
             raise Unmodelled('call depth')
         body = getattr(self.facts, 'pristine', {}).get(body.defp, body)
@@ -461,6 +472,7 @@ class Interp:
             if self.steps > self.step_limit:
                 raise Unmodelled('step limit (unbounded loop over abstract state?) in %s' % body.name)
             blk = body.blocks[b]
+            self.where = (body.name, b)
             for s in blk['s']:
                 if s['k'] == 'assign':
                     if s['rv']['k'] == 'repeat' and not s['lhs']['p']:
@@ -509,7 +521,17 @@ class Interp:
                 self.cur_func = None
                 if 'callee' not in t and t.get('func') and t['func'].get('k') in ('copy', 'move'):
                     self.cur_func = self.operand(frame, t['func'])
-                r = self.call(body, t, args_v, depth)
+                ent_ = mono_map.get(b)
+                sub_ = t.get('mono')
+                tc = t
+                if ent_ is not None and not t.get('resolved'):
+                    tc = dict(t)
+                    if ent_[1]:
+                        tc['resolved'] = ent_[1]
+                    tc['gargs'] = ent_[2]
+                    sub_ = ent_[3] if len(ent_) > 3 and ent_[3] else sub_
+                    self.cur = (body, tc)
+                r = self.call(body, tc, args_v, depth, sub_)
                 if t['target'] is None:
                     raise Unmodelled('diverging call %s' % cname(t))
                 self.place_cell(frame, t['dest']).v = r
@@ -540,7 +562,7 @@ class Interp:
         selfv = ('ref', Cell(clo)) if self_ty.startswith('&') else clo
         return self.run_body(body, [selfv] + list(args), depth + 1)
 
-    def call(self, body, t, args, depth):
+    def call(self, body, t, args, depth, mono=None):
         name = cname(t)
         if name is None:
             # indirect call through a local holding a function pointer / closure
@@ -559,7 +581,7 @@ class Interp:
         if wb is None and name != res:
             wb = self.facts.body(name)
         if wb is not None and wb.kind in ('fn', 'method', 'assoc_fn', 'function') and wb.crate in self.facts.crates:
-            return self.run_body(wb, args, depth + 1)
+            return self.run_body(wb, args, depth + 1, mono)
         if wb is not None and wb.kind == 'coroutine' and wb.crate in self.facts.crates and len(args) == 2:
             # the poll of an awaited workspace `async fn` / async block: run its body to completion (awaited futures
             # resolve at once in this sequential model) on the pinned state
@@ -903,6 +925,9 @@ class Interp:
         if seg == 'as_ref' or seg == 'as_mut':
             if not is_ref:
                 raise Unmodelled('as_ref on value')
+            if not isopt:
+                # Result<T, E>::as_ref -> Result<&T, &E>: the same variant, its payload by reference
+                return ('adt', o[1], o[2], [Cell(('ref', o[3][0]))] if o[3] else [])
             return mk_option(('ref', o[3][0])) if some else mk_option(None)
         if seg == 'as_deref':
             return mk_option(inner) if some else mk_option(None)
